@@ -229,3 +229,16 @@ pub fn eval_generic<X: DualNum<F> + Clone, F: num_dual::DualNumFloat>(p: &Poly, 
     }
     acc.unwrap_or_else(X::zero)
 }
+
+/// A function whose derivatives are NOT exactly representable: products and quotients of two polynomials with
+/// non-dyadic coefficients, a sine and an exponential.  There is no exact reference for it; what the drivers owe for such a
+/// function is checked by self-consistency (same result from both variants and after every fault; exact covariance under
+/// scaling by a power of two).
+pub fn eval_inexact<X: DualNum<F> + Clone, F: num_dual::DualNumFloat>(p: &Poly, q: &Poly, vars: &[X], style: u64) -> X {
+    let c = |v: f64| F::from_f64(v).expect("constant as F");
+    let u = eval_generic(p, vars, style) * c(0.3) + c(0.7);
+    let v = eval_generic(q, vars, style ^ 0x55) * c(1.1) - c(0.45);
+    let bounded = (u.clone() * c(0.125)).sin();
+    let denom = v.clone() * v.clone() + c(1.7);
+    u.clone() * v.clone() + bounded.clone() * v.clone() * c(0.9) + (u / denom) * c(2.3) + (bounded * c(0.5)).exp()
+}
